@@ -173,6 +173,41 @@ def to_text(n: Node, rnd=None, noise: float = 0.0) -> str:
 # --------------------------------------------------------------------------
 
 
+def _re2_dollar(pat: str) -> str:
+    """RE2's `$` (no multi-line flag) matches only at the very end of the text; Python's also before a final line feed: spell it \\Z."""
+    if "(?" in pat and "m" in pat.split("(?", 1)[1].split(")", 1)[0]:
+        return pat
+    out, i, in_class = [], 0, False
+    while i < len(pat):
+        c = pat[i]
+        if c == "\\" and i + 1 < len(pat):
+            out.append(pat[i : i + 2])
+            i += 2
+            continue
+        if in_class:
+            in_class = c != "]"
+        elif c == "[":
+            in_class = True
+            if pat[i + 1 : i + 2] == "^":
+                out.append("[^")
+                i += 2
+                if pat[i : i + 1] == "]":
+                    out.append("]")
+                    i += 1
+                continue
+            if pat[i + 1 : i + 2] == "]":
+                out.append("[]")
+                i += 2
+                continue
+        elif c == "$":
+            out.append("\\Z")
+            i += 1
+            continue
+        out.append(c)
+        i += 1
+    return "".join(out)
+
+
 class ModelErr(Exception):
     """The CEL definition prescribes an evaluation error."""
 
@@ -523,7 +558,7 @@ class Model:
             if a0[0] != "string" or args[1][0] != "string":
                 raise Unspec("matches on non-strings")
             try:
-                return ("bool", re.search(args[1][1], a0[1]) is not None)
+                return ("bool", re.search(_re2_dollar(args[1][1]), a0[1]) is not None)
             except re.error:
                 raise ModelErr("bad regex")
         if name == "type" and len(args) == 1:
